@@ -479,11 +479,11 @@ pub async fn run_suite(seed: u64, cases: usize, only: Option<usize>, out_path: S
           idle = 0;
           last = now;
         }
-        if idle >= 25 {
+        if idle >= 12 {
           use std::io::Write;
           if let Ok(mut f) = std::fs::OpenOptions::new().create(true).append(true).open(&path) {
             let case = now >> 32;
-            let _ = writeln!(f, "oracle-failure case={case} C13: [worker-blocked] the server's worker thread made no progress for 25 s of wall-clock time (a handler blocks the thread: synchronous lock held across a suspension, or a wedge)");
+            let _ = writeln!(f, "oracle-failure case={case} C13: [worker-blocked] the server's worker thread made no progress for 12 s of wall-clock time (a handler blocks the thread: synchronous lock held across a suspension, or a wedge)");
             let _ = writeln!(f, "stats {{\"suite\":\"lat\",\"seed\":0,\"cases\":0,\"aborted\":true}}");
           }
           std::process::exit(0);
